@@ -307,6 +307,14 @@ func (jenny RawTypes) defaultsForStructRec(context languages.Context, objectRef 
 		} else if resolvedFieldType.IsAnyOf(ast.KindScalar, ast.KindMap, ast.KindArray) && field.Type.Default != nil {
 			defaultValue = formatScalar(field.Type.Default)
 
+			// lists are literals of the field's own type: `[]int64{1, 2}`, not `[]string{1, 2}`
+			if items, isList := field.Type.Default.([]any); isList && resolvedFieldType.IsArray() {
+				listType := field.Type.DeepCopy()
+				listType.Nullable = false
+
+				defaultValue = jenny.typeFormatter.formatType(listType) + "{" + strings.Join(tools.Map(items, formatScalar), ", ") + "}"
+			}
+
 			defaultValue = jenny.maybeValueAsPointer(defaultValue, field.Type.Nullable, resolvedFieldType)
 		} else if field.Type.IsRef() && resolvedFieldType.IsStruct() && field.Type.Default != nil {
 			defaultValue = jenny.defaultsForStructRec(context, *field.Type.Ref, resolvedFieldType, field.Type.Default, expanding)
